@@ -192,6 +192,14 @@ func genLintFile(r *rng.R, fi int) (string, map[int]int) {
 		b.WriteString(s)
 		line += strings.Count(s, "\n")
 	}
+	if fi%4 == 3 {
+		// a long run of short lines in front (this file is written with CRLF line ends): an offset that is off by
+		// one byte per preceding line then lands on another line
+		for i := 0; i < 25+r.Intn(15); i++ {
+			add("--\n")
+		}
+		add("\n")
+	}
 	delim := ";"
 	if fi%3 == 1 {
 		d := rng.Pick(r, []string{"$$", "//", ";;", "\\t"})
